@@ -20,6 +20,7 @@ pub mod c09;
 pub mod c11;
 pub mod c12;
 pub mod c13;
+pub mod c14;
 pub mod c15;
 pub mod netkit;
 pub mod c16;
@@ -157,7 +158,7 @@ pub struct Property {
 }
 
 pub fn all() -> Vec<Property> {
-    vec![c01::property(), c02::property(), c03::property(), c04::property(), c05::property(), c06::property(), c07::property(), c08::property(), c09::property(), c11::property(), c12::property(), c13::property(), c15::property(), c16::property(), c17::property()]
+    vec![c01::property(), c02::property(), c03::property(), c04::property(), c05::property(), c06::property(), c07::property(), c08::property(), c09::property(), c11::property(), c12::property(), c13::property(), c14::property(), c15::property(), c16::property(), c17::property()]
 }
 
 pub fn get(id: &str) -> Option<Property> {
